@@ -21,6 +21,11 @@ type Engine struct {
 	// Exec runs the op lines on the implementation: one output line per op line, plus
 	// oracle failures (property evaluated directly on implementation outputs).
 	Exec func(ops []string, st *Stats) (outs []string, oracle []string)
+	// ExecX (stateful engines): like Exec, but the op lines are *intents*; the executor
+	// returns the final op lines (intent + the nondeterministic choices the implementation
+	// was observed to make, e.g. the tables a compaction picked) — possibly more lines than
+	// intents (automatic dumps) — with one output line per final op line.
+	ExecX func(ops []string, st *Stats) (final []string, outs []string, oracle []string)
 }
 
 type Stats struct {
@@ -87,7 +92,13 @@ func main() {
 		rng := rand.New(rand.NewSource(*seed))
 		ops = append(ops, eng.Gen(rng, *n, st)...)
 	}
-	outs, oracle := eng.Exec(ops, st)
+	progressF, _ = os.Create(*outDir + "/progress.txt")
+	var outs, oracle []string
+	if eng.ExecX != nil {
+		ops, outs, oracle = eng.ExecX(ops, st)
+	} else {
+		outs, oracle = eng.Exec(ops, st)
+	}
 	if len(outs) != len(ops) {
 		fmt.Fprintf(os.Stderr, "engine bug: %d ops, %d outputs\n", len(ops), len(outs))
 		os.Exit(3)
@@ -97,6 +108,20 @@ func main() {
 	writeLines(*outDir+"/oracle.txt", oracle)
 	b, _ := json.MarshalIndent(st, "", " ")
 	_ = os.WriteFile(*outDir+"/stats.json", b, 0o644)
+}
+
+// progress appends the intent about to be executed to <out>/progress.txt (unbuffered), so
+// that a fatal exit inside badger (y.AssertTrue calls log.Fatalf) still leaves the session
+// that caused it on disk.
+var progressF *os.File
+
+func progress(line string) {
+	if progressF != nil {
+		progressF.WriteString(line + "\n")
+	}
+	if os.Getenv("VERIF_TRACE") != "" {
+		fmt.Fprintln(os.Stderr, "TRACE", line)
+	}
 }
 
 func readLines(p string) []string {
